@@ -979,6 +979,16 @@ impl Thread {
         self.context()
     }
 
+    /// Verification hook: (number of frames, length of the value stack) of this thread
+    #[cfg(feature = "verif")]
+    pub fn verif_stack_shape(&self) -> (usize, usize) {
+        let context = self.owned_context();
+        (
+            context.stack.get_frames().len(),
+            context.stack.len() as usize,
+        )
+    }
+
     fn trace_fields_except_stack(&self, gc: &mut Gc) {
         if gc.generation().is_root() {
             self.global_state.trace(gc);
